@@ -138,8 +138,10 @@ def depth_case(r, stream):
             contig = "c1" if r.random() < 0.93 else "c2"
             ref = contigs[contig]
 
-            def make(pos_hint=None, flag=0, force=None):
+            def make(pos_hint=None, flag=0, force=None, no_del=False):
                 ops = rand_cigar(r, r.randint(4, 35))
+                if no_del:      # htslib's treatment of deletions inside overlapping mates is not modelled
+                    ops = [(n, "I" if op in "DN" else op) for n, op in ops]
                 ref_len = sum(n for n, op in ops if op in "MDN=X")
                 if pos_hint is None:
                     pos = r.randint(start - ref_len, stop) if contig == "c1" else r.randint(0, 10)
@@ -194,6 +196,8 @@ def depth_case(r, stream):
                 # a proper pair; in the clean stream the mate starts after the first record ends
                 a.flag = (a.flag & ~0x10) | 0x1 | 0x2 | 0x40 | 0x20
                 if stream == "overlap":
+                    a = make(no_del=True)
+                    a.flag = 0x1 | 0x2 | 0x40 | 0x20
                     m_pos = r.randint(a.pos, max(a.pos, a.ref_end - 1))
                     force = None
                     if r.random() < 0.5:
@@ -202,7 +206,7 @@ def depth_case(r, stream):
                             p = r.choice(covered)
                             seen = {rp: a.seq[qi] for qi, rp in S.aligned_pairs(a)}[p]
                             force = {p: r.choice([x for x in BASES if x != seen])}
-                    mate = make(m_pos, 0x1 | 0x2 | 0x80 | 0x10, force)
+                    mate = make(m_pos, 0x1 | 0x2 | 0x80 | 0x10, force, no_del=True)
                     if mate.pos < a.pos:
                         mate = None
                 else:
@@ -225,6 +229,24 @@ def depth_case(r, stream):
         specs = S.sort_reads(contigs, specs)
         bams.append(specs)
     return contigs, start, stop, bams
+
+
+def overlapping_pair_with_deletion(specs, contig, start, stop) -> bool:
+    """two engine-passing records of one read name that overlap on the reference, one of them with a D / N op"""
+    byq = {}
+    for s in specs:
+        if s.contig != contig or not (s.pos < stop and s.ref_end > start) or (s.flag & 0x704):
+            continue
+        if (s.flag & 0x1) and not (s.flag & 0x2):
+            continue
+        byq.setdefault(s.qname, []).append(s)
+    for ss in byq.values():
+        for i in range(len(ss)):
+            for j in range(i + 1, len(ss)):
+                a, b = ss[i], ss[j]
+                if a.pos < b.ref_end and b.pos < a.ref_end and any(op in "DN" for x in (a, b) for _, op in S.parse_cigar(x.cigar)):
+                    return True
+    return False
 
 
 def cfg_grid(r, stream, n):
@@ -472,6 +494,9 @@ def run(tier, replay=None):
                                 features=feats, contig_len=300)
             paths = ds.single_sample_bams()
             for loc in ds.loci:
+                if any(overlapping_pair_with_deletion(ds.reads[p], loc.contig, loc.start, loc.stop) for p in paths):
+                    chk.count("depths:mixed-skipped(overlapping mates with a deletion)")
+                    continue
                 for cfg in cfg_grid(r, "mixed", 2):
                     minq, sd, sq, ss = cfg
                     got = FS.bam_region_depths(paths, ds.fasta, loc.contig, loc.start, loc.stop, dtype=np.int64,
@@ -645,6 +670,9 @@ def run(tier, replay=None):
                 continue
             _, recs = S.parse_vcf_text(out)
             for loc in ds.loci:
+                if any(overlapping_pair_with_deletion(ds.reads[p], loc.contig, loc.start, loc.stop) for p in paths):
+                    chk.count("cli:locus-skipped(overlapping mates with a deletion)")
+                    continue
                 mine = {rec["POS"] - 1: parse_impl_record(rec) for rec in recs
                         if rec["CHROM"] == loc.contig and loc.start <= rec["POS"] - 1 < loc.stop}
                 toks = ["c19.block", loc.contig, str(loc.start), str(loc.stop), ds.contigs[loc.contig][loc.start:loc.stop]] + \
